@@ -1,6 +1,6 @@
 use crate::encode::Encoder;
 use crate::rr::{Address, AddressFamilyNumber};
-use std::net::{Ipv4Addr, Ipv6Addr};
+use std::cmp::max;
 
 impl Encoder {
     #[inline]
@@ -8,34 +8,19 @@ impl Encoder {
         self.u16(*address_number as u16);
     }
 
-    fn rr_address_ipv4(&mut self, ipv4_addr: &Ipv4Addr, mut prefix_length: u8) {
-        let ipv4_addr = ipv4_addr.octets();
-        for b in &ipv4_addr {
+    /// Writes the address without its trailing zero octets, but never less than `minimum_length`
+    /// octets. A decoder fills a short address up with zero octets, so nothing gets lost.
+    fn rr_address_octets(&mut self, octets: &[u8], minimum_length: usize) {
+        let significant = octets.iter().rposition(|b| *b != 0).map_or(0, |i| i + 1);
+        for b in octets.iter().take(max(significant, minimum_length)) {
             self.u8(*b);
-            if prefix_length < 8 {
-                break;
-            } else {
-                prefix_length -= 8;
-            }
         }
     }
 
-    fn rr_address_ipv6(&mut self, ipv6_addr: &Ipv6Addr, mut prefix_length: u8) {
-        let ipv6_addr = ipv6_addr.octets();
-        for b in &ipv6_addr {
-            self.u8(*b);
-            if prefix_length < 8 {
-                break;
-            } else {
-                prefix_length -= 8;
-            }
-        }
-    }
-
-    pub(super) fn rr_address_with_prefix(&mut self, address: &Address, prefix_length: u8) {
+    pub(super) fn rr_address_with_length(&mut self, address: &Address, minimum_length: usize) {
         match address {
-            Address::Ipv4(ipv4_addr) => self.rr_address_ipv4(ipv4_addr, prefix_length),
-            Address::Ipv6(ipv6_addr) => self.rr_address_ipv6(ipv6_addr, prefix_length),
+            Address::Ipv4(ipv4_addr) => self.rr_address_octets(&ipv4_addr.octets(), minimum_length),
+            Address::Ipv6(ipv6_addr) => self.rr_address_octets(&ipv6_addr.octets(), minimum_length),
         }
     }
 }
